@@ -29,7 +29,12 @@ def one (tid):
     b = subprocess.run(['/venv/bin/python', V + '/tools/baseline.py', tmp], capture_output=True, text=True)
     raw = ('/root/benign_raw5/%s' if '_dg' in tid else '/root/benign_raw4/%s' if '_cg' in tid else ('/root/benign_raw3/%s' if '_bg' in tid else '/root/benign_raw/%s')) % tid.split('_')[0]
     s_rc = None
-    if tid != 'CLEAN' and os.path.exists(raw + '/sanity.py'):
+    kept = V + '/selftest/benign/sanity/%s.py' % tid[:-1]
+    if tid != 'CLEAN' and os.path.exists(kept):
+      os.makedirs(tmp + '/_seed', exist_ok=True); shutil.copy(kept, tmp + '/_seed/sanity.py')
+      s = subprocess.run('cd %s && timeout 170 /venv/bin/python -u _seed/sanity.py' % tmp, shell=True, capture_output=True, text=True)
+      s_rc = s.returncode
+    elif tid != 'CLEAN' and os.path.exists(raw + '/sanity.py'):
       os.makedirs(tmp + '/_seed', exist_ok=True)
       for f in os.listdir(raw):
         if f.endswith('.py'): shutil.copy(os.path.join(raw, f), tmp + '/_seed/')
